@@ -118,7 +118,15 @@ def cases(tier, variants):
 
 def run(case):
     name, jac, v = case["base"], case["jac"], case["var"]
-    base, cnt = run_once(name, jac, v)
+    try:
+        base, cnt = run_once(name, jac, v)
+    except core.CaseTimeout:
+        raise
+    except BaseException as e0:  # noqa: B902
+        # this worker process has already injected faults for earlier cases: a fault-free
+        # run that raises now means an earlier fault left something behind in the process
+        return dict(viol=[V("fault_free_run_raises_after_earlier_faults_in_this_process",
+                            exc=repr(e0)[:200])], outcome="state_left_behind")
     d0 = digest(base)
     if case["part"] == "fresh":
         code = ("import sys; sys.path.insert(0, %r); sys.path.insert(0, %r);"
@@ -148,9 +156,14 @@ def run(case):
             if got is not e:
                 viol.append(V("exception_converted", _case=sub, raised=E.__name__,
                               received=type(got).__name__, text=str(got)[:200]))
-        r2, _ = run_once(name, jac, v)
-        if digest(r2) != d0:
-            viol.append(V("followup_run_differs_from_baseline", _case=sub))
+        try:
+            r2, _ = run_once(name, jac, v)
+            if digest(r2) != d0:
+                viol.append(V("followup_run_differs_from_baseline", _case=sub))
+        except core.CaseTimeout:
+            raise
+        except BaseException as e2:  # noqa: B902
+            viol.append(V("followup_run_raises", _case=sub, exc=repr(e2)[:200]))
         if kind not in ("fun", "jac") or idx > 2:
             keys.append(f"{core.case_hash(case)}-{E.__name__}")
     return dict(viol=viol[:20], nontrivial=dict(keys=keys), n_exec=nex,
